@@ -117,7 +117,10 @@ def w2_case(res, case, verbose=False):
                     ib |= w[0] << lane; fb |= (w[0] ^ (len(w[1]) & 1)) << lane
                 ini_bits[k], fin_bits[k] = ib, fb
         sim.c_prop()
-        sim.c_to_s()
+        # captured initial and final values do not depend on the capture time (default = settled, 2.0 = amid the activity, 0.0)
+        T = (None, 2.0, 0.0)[(common.h64((case['nl'], case['capname'])) + rnd) % 3]
+        if T is None: sim.c_to_s()
+        else: sim.c_to_s(time=T); res.count('w2_captures_at_finite_time')
         mask = (1 << n) - 1
         snodes = c.s_nodes
         src_nodes = [snodes[p].index for p in ipos + spos]
